@@ -17,6 +17,7 @@ import (
 	"mellium.im/xmlstream"
 	"mellium.im/xmpp"
 	"mellium.im/xmpp/internal/attr"
+	"mellium.im/xmpp/internal/verifhook"
 	"mellium.im/xmpp/mux"
 	"mellium.im/xmpp/stanza"
 )
@@ -196,7 +197,9 @@ func (h *Handler) HandleMessage(msg stanza.Message, t xmlstream.TokenReadEncoder
 				return nil
 			}
 
+			verifhook.Yield("receipts.notify.before")
 			c <- struct{}{}
+			verifhook.Yield("receipts.notify.after")
 			return nil
 		case "request":
 			msg.From, msg.To = msg.To, msg.From
@@ -264,6 +267,7 @@ func (h *Handler) SendMessageElement(ctx context.Context, s *xmpp.Session, paylo
 	h.m.Lock()
 	h.sent[msg.ID] = c
 	h.m.Unlock()
+	verifhook.Yield("receipts.registered")
 
 	r := Requested(true).TokenReader()
 	if payload != nil {
@@ -271,13 +275,16 @@ func (h *Handler) SendMessageElement(ctx context.Context, s *xmpp.Session, paylo
 	}
 	err := s.SendElement(ctx, r, msg.StartElement())
 	if err != nil {
+		verifhook.Yield("receipts.senderr")
 		return err
 	}
 
+	verifhook.Yield("receipts.wait.before")
 	select {
 	case <-c:
 		return nil
 	case <-ctx.Done():
+		verifhook.Yield("receipts.ctxdone")
 		h.m.Lock()
 		delete(h.sent, msg.ID)
 		h.m.Unlock()
